@@ -87,11 +87,15 @@ def constant_fold_binary_op_extended(
     if not isinstance(left, bytes) and not isinstance(right, bytes):
         return constant_fold_binary_op(op, left, right)
 
-    if op == "+" and isinstance(left, bytes) and isinstance(right, bytes):
-        return left + right
-    elif op == "*" and isinstance(left, bytes) and isinstance(right, int):
-        return left * right
-    elif op == "*" and isinstance(left, int) and isinstance(right, bytes):
-        return left * right
+    try:
+        if op == "+" and isinstance(left, bytes) and isinstance(right, bytes):
+            return left + right
+        elif op == "*" and isinstance(left, bytes) and isinstance(right, int):
+            return left * right
+        elif op == "*" and isinstance(left, int) and isinstance(right, bytes):
+            return left * right
+    except (OverflowError, MemoryError):
+        # The operation fails at run time as well; there is no value to fold to.
+        return None
 
     return None
